@@ -40,7 +40,10 @@ CIDS = [(6, 1), (5, 1), (5, 0), (1, 3), (0x13, 0x60), (0x0A, 4), (0xB5, 0x62), (
 
 
 def rand_payload(rng, n):
-    style = rng.choice(['rand', 'rand', 'sync', 'ff', 'zero', 'frame'])
+    style = rng.choice(['rand', 'rand', 'sync', 'ff', 'zero', 'frame', 'nmeatext'])
+    if style == 'nmeatext':      # a text payload: NMEA sentences, line ends included
+        txt = b''.join(nmea(bytes(rng.choice(b'GPRMC,0123456789.ANE') for _ in range(rng.randrange(1, 12)))) for _ in range(n // 8 + 1))
+        return (b'\r\n' + txt)[:n]
     if style == 'rand':
         return bytes(rng.getrandbits(8) for _ in range(n))
     if style == 'sync':
@@ -274,7 +277,20 @@ def pkt_token(parser, entry):
 
 
 def impl_ubx(filt, ops, check_mutation=True):
-    """Run a schedule on a real UbxParser; canonical result string (same format as the driver)."""
+    """Run a schedule on a real UbxParser; canonical result string (same format as the driver).
+    Every second run happens under a clock that jumps ahead between any two readings (time must not matter)."""
+    global _RUNS
+    _RUNS += 1
+    if _RUNS % 2:
+        with C.JumpyClock():
+            return _impl_ubx(filt, ops, check_mutation)
+    return _impl_ubx(filt, ops, check_mutation)
+
+
+_RUNS = 0
+
+
+def _impl_ubx(filt, ops, check_mutation=True):
     from ubxlib.cid import UbxCID
     from ubxlib.parser_ubx import UbxParser
     p = UbxParser(UbxCID(*CRC_CID))
@@ -336,6 +352,15 @@ def ubx_cmd(filt, ops):
 
 
 def impl_nmea(ops):
+    global _RUNS
+    _RUNS += 1
+    if _RUNS % 2:
+        with C.JumpyClock():
+            return _impl_nmea(ops)
+    return _impl_nmea(ops)
+
+
+def _impl_nmea(ops):
     from ubxlib.parser_nmea import NmeaParser
     p = NmeaParser()
     other = NmeaParser()
@@ -355,10 +380,19 @@ def nmea_cmd(ops):
 
 
 # ---------------------------------------------------------------- independent oracles
-def expected_c02(segs, filt):
-    """What C02 prescribes for a grammar stream: queue tokens and counter."""
+def seg_len(s):
+    return len(s[3]) + 8 if s[0] in 'FB' else 6 if s[0] == 'O' else len(s[1])
+
+
+def expected_c02(segs, filt, switch=None):
+    """What C02 prescribes for a grammar stream: queue tokens and counter. switch = (offset, filter): the
+    filter is replaced after `offset` bytes of the stream; a frame is judged by the filter in force when its last byte arrives."""
     q, n = [], 0
+    ofs = 0
+    filt0 = filt
     for s in segs:
+        ofs += seg_len(s)
+        filt = switch[1] if (switch is not None and ofs > switch[0]) else filt0
         if s[0] == 'F':
             n += 1
             if filt and (s[1], s[2]) in filt:
